@@ -9,6 +9,7 @@ export GOFLAGS=-mod=mod GOPROXY=off GOSUMDB=off GOTOOLCHAIN=local GOWORK=off
 export GOROOT=/root/go/pkg/mod/golang.org/toolchain@v0.0.1-go1.24.0.linux-amd64
 export PATH=$GOROOT/bin:$PATH
 exec > $LOG 2>&1
+export OUT=/var/tmp/cs-out-$TAG; rm -rf $OUT; mkdir -p $OUT   # run.sh scripts that honour $OUT get a private build directory
 git -C /repo worktree remove --force $WT 2>/dev/null; rm -rf $WT
 git -C /repo worktree add --detach $WT HEAD >/dev/null 2>&1 || exit 9
 pkgs() { # go packages touched by the patch, as "<module-dir> <pkg>" lines
@@ -36,5 +37,5 @@ for c in $CHECKS; do
   (cd /verif && VERIF_REPO=$WT timeout 3000 ./check $c --tier quick) > /var/tmp/confirm/$TAG.check-$c 2>&1; echo "check rc=$?"
   grep -a "VIOLATION\|KNOWN-FINDING" /var/tmp/confirm/$TAG.check-$c | cut -c1-400 | head -12
 done
-git -C /repo worktree remove --force $WT; rm -rf $WT
+git -C /repo worktree remove --force $WT; rm -rf $WT $OUT
 echo "== done"
